@@ -254,6 +254,37 @@ pub fn gen_lzma2(t: &mut Tape, max_total: u64, strict_order: bool) -> Lzma2Built
             note.push_str(["L0 ", "L1 ", "L2 ", "L3 "][reset as usize]);
         }
     }
+    // now and then: a trained pair — an LZMA chunk that repeats one match until
+    // its probabilities saturate, followed by a no-reset chunk repeating it a
+    // few more times: that second chunk's payload is just the 5-byte range-coder
+    // preamble (the smallest legal compressed size)
+    if total + 20_000 < max_total.max(30_000) && t.below(10) == 0 {
+        let reset: u8 = if need_dict_reset { 3 } else if props_set { t.below(4) as u8 } else { 2 + t.below(2) as u8 };
+        let newp = if reset >= 2 { Some(gen::draw_props(t, true)) } else { None };
+        let ts = w.enc.trace.len();
+        w.begin_lzma_chunk(reset, newp);
+        let b = t.byte();
+        let _ = w.enc.encode(Sym::Lit(b));
+        let len = [2u32, 3, 8, 18, 273][t.below(5) as usize];
+        let n = t.range(80, 160);
+        for _ in 0..n {
+            if w.enc.model.out.len() as u64 - w_start(&w) + len as u64 > 60_000 {
+                break;
+            }
+            let _ = w.enc.encode(Sym::Match { dist: 1, len });
+        }
+        if w.end_lzma_chunk(reset, ts) {
+            note.push_str(["L0t ", "L1t ", "L2t ", "L3t "][reset as usize]);
+            let ts = w.enc.trace.len();
+            w.begin_lzma_chunk(0, None);
+            for _ in 0..t.range(1, 3) {
+                let _ = w.enc.encode(Sym::Match { dist: 1, len });
+            }
+            if w.end_lzma_chunk(0, ts) {
+                note.push_str("L0e ");
+            }
+        }
+    }
     w.end();
     Lzma2Built {
         ps,
